@@ -158,6 +158,10 @@ def run_case(case, ctx):
                 conv.sr.close()
             except Exception:  # noqa
                 pass
+        if np2.has_uuid(case.get("stem")):
+            # the reconstructor looks for "*ap.meta" / "*ap.*bin": registered (UUID-tagged) names are outside what it accepts
+            ctx.label("uuid_name_split_only")
+            return
         # ---- reconstruction: remove the original first (the reconstructor writes to the same place)
         for p in ap.parent.iterdir():
             p.unlink()
